@@ -6,6 +6,7 @@ CONSTANTS
   Foreign = {}
   Name = {n1}
   Ctx = {c1}
+  Roam = FALSE
   Fn = {g1}
   MethFn = {}
   MaxArg = 1
